@@ -628,9 +628,8 @@ def addAdderOk (e : Env) (q : List (Bytes × Bytes)) : Bool :=
 def addScript (e : Env) (q : List (Bytes × Bytes)) (k : Nat) : Bool :=
   (k == 1 && e.ing == 0) || (k == 4 && addParamsErr q) || (k == 6 && !addAdderOk e q) || (k == 8 && e.fail .unpin)
 
-/-- NOT PROVED (round 8c ran out of time: the direct 12-way Boolean case split exceeds the heartbeat limit; needs staged
-    rewriting per arm of `addH`). Statement kept: `addHandlerFlow` and `addH` agree on the trailing-Unpin outcomes, on the plain
-    500 of the arms before the adder, and on status / X-Stream-Error once the adder succeeded. -/
+/-- the statement: `addHandlerFlow` and `addH` agree on the trailing-Unpin outcomes, on the plain 500 of the arms before the
+    adder, and on status / X-Stream-Error once the adder succeeded (proved below as `add_flow_agrees_proved`). -/
 def add_flow_agrees : Prop :=
   ∀ (e : Env) (q : List (Bytes × Bytes)) (obs : AddObs) (v : Nat → Bool),
     v 34 = (qGet q b!"only-hash" == b!"true") → v 40 = !(qGet q b!"pin" == b!"false") →
@@ -641,6 +640,97 @@ def add_flow_agrees : Prop :=
     ((interp v (addScript e q) 0 Gen.C12.addHandlerFlow).contains (.adder true) = true →
       (addH true e q obs).status = 200 ∧
       (addH true e q obs).serr = ((interp v (addScript e q) 0 Gen.C12.addHandlerFlow).contains .serr && addStream q))
+
+/-- closed form of the interpreted `addHandlerFlow` (round 8 final): every valuation, every failure script -/
+theorem add_interp (v f : Nat → Bool) :
+    interp v f 0 Gen.C12.addHandlerFlow =
+      if f 1 then [Ev.resp 500] else if v 34 then [Ev.resp 500] else if f 4 then [Ev.resp 500] else
+        (if v 37 then [Ev.set 38 39] else []) ++
+          (if f 6 then [Ev.adder false] else
+            Ev.adder true ::
+              (if v 40 then [] else if f 8 then [Ev.op 4 30 41 false, Ev.serr] else [Ev.op 4 30 41 true])) := by
+  cases h1 : f 1 <;> cases h34 : v 34 <;> cases h4 : f 4 <;> cases h37 : v 37 <;> cases h6 : f 6 <;> cases h40 : v 40 <;>
+    cases h8 : f 8 <;>
+    simp [Gen.C12.addHandlerFlow, interp, stepEvs, guardHolds, failTail, armEvs, armReturns, h1, h34, h4, h37, h6, h40, h8]
+
+/-- the arms of `addH` before the adder: a plain 500, nothing ran -/
+theorem addH_pre (e : Env) (q : List (Bytes × Bytes)) (obs : AddObs)
+    (h : (e.ing == 0 || qGet q b!"only-hash" == b!"true" || addParamsErr q) = true) :
+    addH true e q obs = { status := 500 } := by
+  cases h0 : (e.ing == 0) <;> cases hoh : (qGet q b!"only-hash" == b!"true") <;> cases hpe : addParamsErr q <;>
+    simp [addH, h0, hoh, hpe] at h ⊢
+
+/-- the arms of `addH` in which the adder fails: no `Cluster.Unpin` is issued -/
+theorem addH_adderFails (e : Env) (q : List (Bytes × Bytes)) (obs : AddObs)
+    (h : (e.ing == 0 || qGet q b!"only-hash" == b!"true" || addParamsErr q) = false) (ha : addAdderOk e q = false) :
+    ((addH true e q obs).rpcs.filter (fun r => r.name == .unpin)).map (·.ok) = [] := by
+  cases h0 : (e.ing == 0) <;> cases hoh : (qGet q b!"only-hash" == b!"true") <;> cases hpe : addParamsErr q <;>
+    simp [h0, hoh, hpe] at h
+  cases hnr : addNoRoot e q <;> cases hs : addStream q
+  all_goals first
+    | (simp [addH, h0, hoh, hpe, hnr, hs]; done)
+    | (cases hi : (e.ing == 1) <;> cases hba : e.fail .blockAllocate <;> cases hbp : e.fail .blockPut <;>
+        cases hp : e.fail .pin <;>
+        simp [addH, addPinRpc, addAdderOk, h0, hoh, hpe, hnr, hs, hi, hba, hbp, hp] at ha ⊢)
+
+/-- the arms of `addH` after a successful adder: 200; the trailing `Cluster.Unpin` runs iff `pin=false`, and its failure
+    sets `X-Stream-Error` (a trailer in stream mode only) -/
+theorem addH_adderOk (e : Env) (q : List (Bytes × Bytes)) (obs : AddObs)
+    (h : (e.ing == 0 || qGet q b!"only-hash" == b!"true" || addParamsErr q) = false) (ha : addAdderOk e q = true) :
+    (addH true e q obs).status = 200 ∧
+    (addH true e q obs).serr = ((qGet q b!"pin" == b!"false") && e.fail .unpin && addStream q) ∧
+    ((addH true e q obs).rpcs.filter (fun r => r.name == .unpin)).map (·.ok) =
+      (if qGet q b!"pin" == b!"false" then [!(e.fail .unpin)] else []) := by
+  cases h0 : (e.ing == 0) <;> cases hoh : (qGet q b!"only-hash" == b!"true") <;> cases hpe : addParamsErr q <;>
+    simp [h0, hoh, hpe] at h
+  cases hnr : addNoRoot e q <;> cases hi : (e.ing == 1) <;> cases hba : e.fail .blockAllocate <;>
+    cases hbp : e.fail .blockPut <;> cases hp : e.fail .pin <;> simp [addAdderOk, hnr, hi, hba, hbp, hp] at ha
+  cases hpin : (qGet q b!"pin" == b!"false") <;> cases hu : e.fail .unpin <;>
+    simp [addH, addPinRpc, h0, hoh, hpe, hnr, hi, hba, hbp, hp, hpin, hu]
+
+/-- round 8 final: `add_flow_agrees` PROVED, one lemma per group of arms of `addH` (`addH_pre`, `addH_adderFails`,
+    `addH_adderOk`) against the closed form `add_interp` of the interpreted structure -/
+theorem add_flow_agrees_proved : add_flow_agrees := by
+  intro e q obs v h34 h40
+  have s1 : addScript e q 1 = (e.ing == 0) := by simp [addScript]
+  have s4 : addScript e q 4 = addParamsErr q := by simp [addScript]
+  have s6 : addScript e q 6 = !addAdderOk e q := by simp [addScript]
+  have s8 : addScript e q 8 = e.fail .unpin := by simp [addScript]
+  rw [add_interp, s1, s4, s6, s8, h34, h40]
+  cases hpre : (e.ing == 0 || qGet q b!"only-hash" == b!"true" || addParamsErr q)
+  · have hpre' := hpre
+    simp only [Bool.or_eq_false_iff] at hpre'
+    obtain ⟨⟨h0, hoh⟩, hpe⟩ := hpre'
+    cases ha : addAdderOk e q
+    · have hm := addH_adderFails e q obs hpre ha
+      cases h37 : v 37 <;> simp [h0, hoh, hpe, hm, opOks]
+    · obtain ⟨m1, m2, m3⟩ := addH_adderOk e q obs hpre ha
+      cases h37 : v 37 <;> cases hpin : (qGet q b!"pin" == b!"false") <;> cases hu : e.fail .unpin <;>
+        simp [h0, hoh, hpe, m1, m2, m3, hpin, hu, opOks]
+  · have hm := addH_pre e q obs hpre
+    cases h0 : (e.ing == 0) <;> cases hoh : (qGet q b!"only-hash" == b!"true") <;> cases hpe : addParamsErr q <;>
+      simp [h0, hoh, hpe] at hpre <;> simp [h0, hoh, hpe, hm, opOks, statusOf]
+
+example : addAdderOk { ing := 2 } [(b!"pin", b!"false")] = true ∧
+    addScript { ing := 2, fails := [.unpin] } [(b!"pin", b!"false")] 8 = true := by decide
+
+/-- pin/ls answer content of the handler model (round 8 final): the keys listed are the whole pinset when no `arg` is given,
+    else the one decoded CID; nothing is listed on an error arm -/
+theorem pinLs_model_content (e : Env) (q : List (Bytes × Bytes)) :
+    (pinLsH e q).items =
+      if (pinLsH e q).status == 200 then
+        (if (qGet q b!"arg").isEmpty then e.pins else (e.cd (qGet q b!"arg")).toList)
+      else [] := by
+  cases he : (qGet q b!"arg").isEmpty <;> cases hc : e.cd (qGet q b!"arg") <;> cases hg : e.fail .pinGet <;>
+    cases hf : e.fail .pins <;> simp [pinLsH, he, hc, hg, hf]
+
+/-- pin/ls reads NOTHING of the query but the first `arg`: no `type=` filter, whatever else is sent (every pin is
+    listed, as "recursive", for `type=direct` too) -/
+theorem pinLs_model_only_arg (e : Env) (q q' : List (Bytes × Bytes)) (h : qGet q b!"arg" = qGet q' b!"arg") :
+    pinLsH e q = pinLsH e q' := by
+  simp [pinLsH, h]
+
+example : (pinLsH { pins := [[1], [2]] } [(b!"type", b!"direct")]).items = [[1], [2]] := by decide
 
 /-- pin/update with at least two arguments -/
 theorem pinUpdate_flow_agrees (e : Env) (q : List (Bytes × Bytes)) (v : Nat → Bool) (frm tgt : Bytes) (rest : List Bytes)
